@@ -127,6 +127,15 @@ def gen_history(rng, tag, shipped):
         if odd_queries and rng.random() < 0.5:
             ops1.append(rng.choice(odd_queries))
         ops1.append(reverse(rng.choice(finals)) if rng.random() < 0.7 else rand_query())
+    trailing_from = max((i for i, op in enumerate(ops1) if op[0] in ("declare", "scale")), default=len(ops1) - 1) + 1
+    if rng.random() < 0.5:
+        # the program asks from deep inside its own recursion, with a few dozen interpreter frames to spare: the search
+        # may die of RecursionError at any depth.  An answer that does come back must be the right one, and a search
+        # that died must leave nothing behind for the ordinary askings that follow
+        for _ in range(rng.randint(1, 5)):
+            q = rng.choice(finals)
+            ops1.insert(rng.choice([len(ops1), trailing_from]),   # ... or first thing after the last declaration, before anything is memoised again
+                        ["little_stack", rng.choice([4, 8, 12, 16, 20, 24, 28, 32, 40, 50, 64]), reverse(q) if rng.random() < 0.3 else q])
     if odd_queries:
         ops1.append(rng.choice(odd_queries))   # the first final question is the first search after an abandoned one
     if dec_queries:
@@ -387,6 +396,17 @@ def run(ctx):
             elif op[0] in ("convert", "eq", "lt"):
                 earlier.setdefault(repr(op), []).append((idx, outcome(r1[idx])))
         case_base = {"seed": ctx.seed, "history": i, "defs": ndefs, "declarations": ndecls}
+        for idx, op in enumerate(spec1["ops"][:final_start]):
+            if op[0] == "little_stack" and idx > last_decl_index and "ok" in r1[idx]:
+                got = r1[idx]["ok"]
+                ctx.count(f"asked_with_little_stack/{got[0]}")
+                if got[0] == "answered" and op[2] in finals:
+                    want = outcome(r2[base_start + finals.index(op[2])])
+                    if want[0] == "ok" and outcome({"ok": got[1]}) != want:
+                        ctx.violation("C08:answer-given-with-little-stack-differs", f"{op[2]} asked with {op[1]} frames to spare answered {got[1]}, a fresh process answers {want}",
+                                      {**case_base, "query": op[2], "frames": op[1]})
+            elif op[0] == "little_stack" and "raise" in r1[idx]:
+                ctx.count(f"asked_with_little_stack/raised_{r1[idx]['raise']}")
         for k, q in enumerate(finals):
             f1 = outcome(r1[final_start + k])
             f1b = outcome(r1[after_flush + k])
